@@ -3,6 +3,7 @@ import Rare.Proofs.C03Comp
 import Rare.Proofs.C03Det
 import Rare.Proofs.C03Run
 import Rare.Proofs.C03ReduceExpr
+import Rare.Proofs.C03Analyze
 import Rare.Props.C07
 import Rare.Props.C13
 /-!
@@ -544,5 +545,187 @@ example : ∃ s0 mk, reduceSetup (fun t => if t = [123, 49, 125] then some (Comp
     { group := [[107, 61, 123, 49, 125]], accum := [[110, 58, 55, 61, 123, 49, 125]] } = .ok (s0, mk) ∧ mk = 1 ∧
     s0.groupCols = [[107]] ∧ s0.dataCols = [[110]] ∧ s0.colDef.map (·.initial) = [[55]] := ⟨_, _, rfl, rfl, rfl, rfl, rfl⟩
 example : parseKeyValInitial [97, 58, 49, 61, 120, 61] [48] = ([97], [49], [120, 61]) ∧ parseKeyValue [120] = ([120], [120]) := by decide
+
+/-! ## `rare analyze`
+
+`Model/C03Analyze.lean` states what the final render prints (`--nocolor --noformat`) as a function of the
+aggregator `runF extra history` (`Model/C07NumF64.lean`: the float computation of numerical.go bit for bit on the
+software binary64 model) and of the arrangement `sort.Sort` left in `values`.
+
+FULL STATEMENT WANTED (the property's claim for `analyze`):
+  for two sample histories that are permutations of each other, `analyzeLines` is the same text.
+It is FALSE for `Mean:` and `StdDev:` (Welford's recurrence in binary64 is order sensitive in the last bits, and
+the 4-decimal rendering shows it when the exact value is a tie at the 5th decimal or the magnitude exceeds 2^39):
+`analyze_mean_print_order_dependent_counterexample` (known finding F26).  Proved instead: every OTHER line is
+exactly order independent (`analyze_order_independent_partial`), and in exact arithmetic mean and variance are
+functions of the multiset (`analyze_mean_stddev_exact_perm`). -/
+
+/-- Count, Min, Max, the parse-error count, every order statistic (Median, Mode, every `-q` quantile, with or
+without `--reverse`) and the exit status are EXACTLY the same for two sample histories that are permutations of
+each other – whatever sorting algorithm `sort.Sort` is (`IsSortedF`: any sorted arrangement) – when no sample is
+NaN or `-0` (`Ordinary`; those two have several bit patterns / signs per place in the order, and `-0` prints as
+`-0.0000`).  Hence the two final renders differ at most in line 1 (`Mean:`) and line 2 (`StdDev:`). -/
+theorem analyze_order_independent_partial (a : AnalyzeArgs) (quantiles : List F64) (h₁ h₂ : List Bytes)
+    (hp : h₁.Perm h₂) (ho : ∀ x ∈ parsedValues h₁, Ordinary x) (s₁ s₂ : List F64)
+    (hs₁ : IsSortedF a.reverse s₁ (runF a.extra h₁).values) (hs₂ : IsSortedF a.reverse s₂ (runF a.extra h₂).values)
+    (c : Counters) (readErrors : Int) :
+    (runF a.extra h₁).samples = (runF a.extra h₂).samples ∧ (runF a.extra h₁).min = (runF a.extra h₂).min ∧
+    (runF a.extra h₁).max = (runF a.extra h₂).max ∧ (runF a.extra h₁).parseErrors = (runF a.extra h₂).parseErrors ∧
+    s₁ = s₂ ∧ analyzeExtra s₁ quantiles = analyzeExtra s₂ quantiles ∧
+    analyzeExit readErrors (runF a.extra h₁) c = analyzeExit readErrors (runF a.extra h₂) c ∧
+    (∀ l₁ l₂, analyzeLines a quantiles (runF a.extra h₁) s₁ c = .ok l₁ →
+      analyzeLines a quantiles (runF a.extra h₂) s₂ c = .ok l₂ →
+      l₁.length = l₂.length ∧ ∀ i, i ≠ 1 → i ≠ 2 → l₁[i]? = l₂[i]?) ∧
+    ((runF a.extra h₁).mean = (runF a.extra h₂).mean → (runF a.extra h₁).variance = (runF a.extra h₂).variance →
+      analyzeLines a quantiles (runF a.extra h₁) s₁ c = analyzeLines a quantiles (runF a.extra h₂) s₂ c) := by
+  obtain ⟨pv, pe⟩ := parsedValues_perm hp
+  obtain ⟨f1s, f1mn, f1mx, f1me, f1va, f1pe⟩ := runF_fields a.extra h₁
+  obtain ⟨f2s, f2mn, f2mx, f2me, f2va, f2pe⟩ := runF_fields a.extra h₂
+  obtain ⟨es, emn, emx⟩ := runFv_minmax_perm a.extra pv ho
+  have hsamples : (runF a.extra h₁).samples = (runF a.extra h₂).samples := by rw [f1s, f2s, es]
+  have hmin : (runF a.extra h₁).min = (runF a.extra h₂).min := by rw [f1mn, f2mn, emn]
+  have hmax : (runF a.extra h₁).max = (runF a.extra h₂).max := by rw [f1mx, f2mx, emx]
+  have hpe : (runF a.extra h₁).parseErrors = (runF a.extra h₂).parseErrors := by rw [f1pe, f2pe, pe]
+  have hsort : s₁ = s₂ := by
+    rw [runF_values] at hs₁ hs₂
+    cases he : a.extra with
+    | false =>
+      rw [he] at hs₁ hs₂
+      simp only [Bool.false_eq_true, if_false] at hs₁ hs₂
+      rw [hs₁.1.eq_nil, hs₂.1.eq_nil]
+    | true =>
+      rw [he] at hs₁ hs₂
+      simp only [if_true] at hs₁ hs₂
+      exact sorted_unique_ordinary a.reverse s₁ s₂ _ _ pv hs₁ hs₂ ho
+  have hexit : analyzeExit readErrors (runF a.extra h₁) c = analyzeExit readErrors (runF a.extra h₂) c := by
+    unfold analyzeExit; rw [hpe]
+  have hbasic : ∀ i, i ≠ 1 → i ≠ 2 → (analyzeBasic (runF a.extra h₁))[i]? = (analyzeBasic (runF a.extra h₂))[i]? := by
+    intro i h1 h2
+    unfold analyzeBasic
+    rw [hsamples, hmin, hmax]
+    match i with
+    | 0 => simp only [List.getElem?_cons_zero]
+    | 1 => exact absurd rfl h1
+    | 2 => exact absurd rfl h2
+    | (n + 3) => simp only [List.getElem?_cons_succ]
+  have hblen : ∀ s : NumF, (analyzeBasic s).length = 5 := fun _ => by simp only [analyzeBasic, List.length_cons, List.length_nil]
+  refine ⟨hsamples, hmin, hmax, hpe, hsort, by rw [hsort], hexit, ?_, ?_⟩
+  · intro l₁ l₂ e1 e2
+    subst hsort
+    unfold analyzeLines at e1 e2
+    rw [← hpe] at e2
+    have key : ∀ (tail : List Bytes) (i : Nat), i ≠ 1 → i ≠ 2 →
+        (analyzeBasic (runF a.extra h₁) ++ tail)[i]? = (analyzeBasic (runF a.extra h₂) ++ tail)[i]? := by
+      intro tail i h1 h2
+      by_cases hi : i < 5
+      · rw [List.getElem?_append_left (by rw [hblen]; exact hi), List.getElem?_append_left (by rw [hblen]; exact hi)]
+        exact hbasic i h1 h2
+      · rw [List.getElem?_append_right (by rw [hblen]; omega), List.getElem?_append_right (by rw [hblen]; omega),
+          hblen, hblen]
+    by_cases hx : a.extra = true
+    · rw [if_pos hx] at e1 e2
+      cases hex : analyzeExtra s₁ quantiles with
+      | error m => rw [hex] at e1; cases e1
+      | ok ex =>
+        rw [hex] at e1 e2
+        simp only [Except.map, Except.ok.injEq] at e1 e2
+        subst e1 e2
+        refine ⟨by simp [hblen], fun i h1 h2 => ?_⟩
+        rw [List.append_assoc, List.append_assoc]
+        exact key _ i h1 h2
+    · rw [if_neg hx] at e1 e2
+      simp only [Except.ok.injEq] at e1 e2
+      subst e1 e2
+      exact ⟨by simp [hblen], fun i h1 h2 => key _ i h1 h2⟩
+  · intro hmean hvar
+    subst hsort
+    have hsd : (runF a.extra h₁).stdDev = (runF a.extra h₂).stdDev := by
+      unfold NumF.stdDev NumF.varianceF Numerical.varianceOf
+      rw [hsamples, hvar]
+    unfold analyzeLines analyzeBasic
+    rw [hsamples, hmin, hmax, hpe, hmean, hsd]
+
+/-- The same composed with the pipeline: two terminal states of the whole program for the same files under any
+two tunings and schedules print – apart from the `Mean:` and `StdDev:` lines – the same final render and end
+with the same exit status. -/
+theorem analyze_schedule_independent_partial (cls : Line → Cls) (key : Line → Bytes) (datas : List Bytes)
+    (cfg₁ cfg₂ : Config) (hW₁ : 1 ≤ cfg₁.W) (hW₂ : 1 ≤ cfg₂.W) (h₁ h₂ : List Bytes) (c₁ c₂ : Counters)
+    (t₁ : TerminalC cls key cfg₁ datas h₁ c₁) (t₂ : TerminalC cls key cfg₂ datas h₂ c₂)
+    (a : AnalyzeArgs) (quantiles : List F64) (ho : ∀ x ∈ parsedValues (refSamples cls key datas), Ordinary x)
+    (sort₁ sort₂ : List F64 → List F64) (hsort₁ : ∀ l, IsSortedF a.reverse (sort₁ l) l)
+    (hsort₂ : ∀ l, IsSortedF a.reverse (sort₂ l) l) (readErrors : Int) :
+    h₁.Perm h₂ ∧ c₁ = c₂ ∧
+    ∀ r₁ r₂, analyzeRun a quantiles h₁ sort₁ c₁ readErrors = .ok r₁ → analyzeRun a quantiles h₂ sort₂ c₂ readErrors = .ok r₂ →
+      r₁.exit = r₂.exit ∧ r₁.lines.length = r₂.lines.length ∧ ∀ i, i ≠ 1 → i ≠ 2 → r₁.lines[i]? = r₂.lines[i]? := by
+  have p1 := terminal_perm cls key cfg₁ hW₁ datas h₁ t₁.terminal
+  have p2 := terminal_perm cls key cfg₂ hW₂ datas h₂ t₂.terminal
+  have hp : h₁.Perm h₂ := p1.trans p2.symm
+  have ec : c₁ = c₂ := (terminalC_counters hW₁ t₁).trans (terminalC_counters hW₂ t₂).symm
+  refine ⟨hp, ec, ?_⟩
+  subst ec
+  intro r₁ r₂ e1 e2
+  have ho1 : ∀ x ∈ parsedValues h₁, Ordinary x :=
+    fun x hx => ho x ((parsedValues_perm p1).1.mem_iff.mp hx)
+  have := analyze_order_independent_partial a quantiles h₁ h₂ hp ho1 _ _ (hsort₁ _) (hsort₂ _) c₁ readErrors
+  obtain ⟨_, _, _, _, _, _, hexit, hlines, _⟩ := this
+  simp only [analyzeRun] at e1 e2
+  cases hl1 : analyzeLines a quantiles (runF a.extra h₁) (sort₁ (runF a.extra h₁).values) c₁ with
+  | error m => rw [hl1] at e1; cases e1
+  | ok l1 =>
+    cases hl2 : analyzeLines a quantiles (runF a.extra h₂) (sort₂ (runF a.extra h₂).values) c₁ with
+    | error m => rw [hl2] at e2; cases e2
+    | ok l2 =>
+      rw [hl1] at e1; rw [hl2] at e2
+      simp only [Except.map, Except.ok.injEq] at e1 e2
+      subst e1 e2
+      obtain ⟨a1, a2⟩ := hlines l1 l2 hl1 hl2
+      exact ⟨hexit, a1, a2⟩
+
+/-- In exact arithmetic Welford's recurrence (C07 `welford_exact`) gives mean = Σ/n, M2 = Σ(x-mean)², sample
+variance = M2/(n-1): functions of the multiset of samples – permuting the samples changes nothing.  What the
+binary64 computation adds is one rounding per operation, in an order-dependent sequence. -/
+theorem analyze_mean_stddev_exact_perm (keep : Bool) (l₁ l₂ : List Rat) (hp : l₁.Perm l₂) :
+    (runQ keep l₁).samples = (runQ keep l₂).samples ∧ (runQ keep l₁).mean = (runQ keep l₂).mean ∧
+    (runQ keep l₁).variance = (runQ keep l₂).variance ∧
+    (runQ keep l₁).varianceOf ratOps = (runQ keep l₂).varianceOf ratOps ∧
+    (runQ keep l₁).mean = ratSum l₁ / l₁.length := by
+  obtain ⟨a1, a2, a3, a4, _⟩ := C07.welford_exact keep l₁
+  obtain ⟨b1, b2, b3, b4, _⟩ := C07.welford_exact keep l₂
+  exact ⟨by rw [a1, b1, hp.length_eq], by rw [a2, b2, mean_perm hp], by rw [a3, b3, m2_perm hp],
+    by rw [a4, b4, sampleVariance_perm hp], by rw [a2]; rfl⟩
+
+/-- F26 (known finding).  The two sample histories `2`, `0.0001` and `0.0001`, `2` – e.g. the files `2⏎` and
+`0.0001⏎` given to `rare analyze` in either order, or one schedule of two workers against another – are
+permutations of each other, all values are ordinary, and the PRINTED mean differs: `1.0000` against `1.0001`
+(the exact mean of the two binary64 values is 1.00005000000000000000239…, a hair above the tie of the 4-decimal
+rendering, so the specification prints 1.0001; the binary64 recurrence lands on either side of the tie depending
+on the order).  So the full statement (equal final renders for permuted histories) is false. -/
+theorem analyze_mean_print_order_dependent_counterexample :
+    let h₁ : List Bytes := [[50], [48, 46, 48, 48, 48, 49]]
+    let h₂ : List Bytes := [[48, 46, 48, 48, 48, 49], [50]]
+    h₁.Perm h₂ ∧
+    hf (runF false h₁).mean = [49, 46, 48, 48, 48, 48] ∧ hf (runF false h₂).mean = [49, 46, 48, 48, 48, 49] ∧
+    (runF false h₁).samples = 2 ∧ hf (runF false h₁).stdDev = hf (runF false h₂).stdDev ∧
+    (match analyzeLines {} [] (runF false h₁) [] ⟨2, 2, 0⟩, analyzeLines {} [] (runF false h₂) [] ⟨2, 2, 0⟩ with
+      | .ok l₁, .ok l₂ => decide (l₁ ≠ l₂ ∧ l₁[1]? ≠ l₂[1]? ∧ l₁[0]? = l₂[0]? ∧ l₁.drop 2 = l₂.drop 2)
+      | _, _ => false) = true := by
+  refine ⟨List.Perm.swap _ _ _, by decide +kernel, by decide +kernel, by decide +kernel, by decide +kernel, by decide +kernel⟩
+
+/-! ### non-vacuity for `rare analyze` -/
+
+/-- the samples `7`, `0.25`, `x` (not a number), `7`, `-3e2` and a permutation: ordinary values, a sorted arrangement
+exists for both (`analyzeF`), and the final render of the first with `--extra -q 50` -/
+example : ([[55], [48, 46, 50, 53], [120], [55], [45, 51, 101, 50]] : List Bytes).Perm [[45, 51, 101, 50], [55], [120], [55], [48, 46, 50, 53]] := by
+  decide
+example : ∀ x ∈ parsedValues [[55], [48, 46, 50, 53], [120], [55], [45, 51, 101, 50]], Ordinary x := by decide +kernel
+example (rev : Bool) (l : List F64) : IsSortedF rev (analyzeF rev l) l := analyzeF_sorted rev l
+example : (analyzeRun { extra := true, quantiles := [[53, 48]] } [F64.ofInt 50] [[55], [48, 46, 50, 53], [120], [55], [45, 51, 101, 50]]
+      (fun _ => parsedValues [[45, 51, 101, 50], [48, 46, 50, 53], [55], [55]]) ⟨5, 6, 0⟩ 0).toOption =
+    some { lines := [ascii "Samples:  4", ascii "Mean:     -71.4375", ascii "StdDev:   152.4082", ascii "Min:      -300.0000",
+                    ascii "Max:      7.0000", [], ascii "Median:   7.0000", ascii "Mode:     7.0000", ascii "P50.0000: 7.0000",
+                    [], ascii "Matched: 5 / 6 (Errors: 1)"], exit := 2 } := by
+  decide +kernel
+example : (parseQuantiles [[57, 48], [120]]).toOption = none ∧ ¬ Ordinary (F64.zero true) ∧ ¬ Ordinary F64.nan := by decide +kernel
+example : ([1, 2, 4] : List Rat).Perm [4, 1, 2] := by decide
 
 end Rare.C03
